@@ -45,7 +45,7 @@ ANCHORS = ["txtorcon.torcontrolprotocol:TorControlProtocol._handle_notify",
            "txtorcon.torcontrolprotocol:TorControlProtocol._broadcast_response",
            "txtorcon.torcontrolprotocol:TorControlProtocol._start_command"]
 FLOORS = {"quick": {"evaluations": 1500, "events_completed": 4000, "listener_calls": 3000,
-                    "in_delivery_operations": 300, "setevents_compared": 1500,
+                    "in_delivery_operations": 300, "setevents_compared": 1500, "listeners_registered_as_bound_methods": 1000,
                     "reach:txtorcon.torcontrolprotocol:Event.got_update": 2000},
           "thorough": {"evaluations": 40000, "events_completed": 100000, "listener_calls": 80000,
                        "in_delivery_operations": 8000}}
@@ -66,6 +66,13 @@ class Listener(object):
 
     def __call__(self, payload):
         return self.h.on_call(self, payload)
+
+    def handle(self, payload):
+        """the same listener registered as a bound method (a fresh, equal object on every access)"""
+        return self.h.on_call(self, payload)
+
+    def cb(self):
+        return self.handle if self.lid % 3 == 1 else self
 
     def __repr__(self):
         return "<L%d %s %s>" % (self.lid, self.name, self.behaviour)
@@ -121,8 +128,10 @@ class Harness(ctl.Session):
         if self.subscribed() != before:
             self.expected_setevents.append(self.subscribed())
         try:
-            d = self.proto.add_event_listener(name, l)
+            d = self.proto.add_event_listener(name, l.cb())
             self.aud.watch(d, "add-listener")
+            if l.cb() is not l:
+                self.bound_method_listeners = getattr(self, "bound_method_listeners", 0) + 1
         except Exception as e:
             self.exceptions.append(("add_event_listener", self.chunk_no, repr(e)))
         return l
@@ -135,7 +144,7 @@ class Harness(ctl.Session):
         if self.subscribed() != before:
             self.expected_setevents.append(self.subscribed())
         try:
-            d = self.proto.remove_event_listener(l.name, l)
+            d = self.proto.remove_event_listener(l.name, l.cb())
             self.aud.watch(d, "remove-listener")
         except Exception as e:
             self.exceptions.append(("remove_event_listener", self.chunk_no, repr(e)))
@@ -381,6 +390,7 @@ def run_case(case, rec):
     rec.count("events_completed", len(done))
     rec.count("listener_calls", len(h.calls))
     rec.count("in_delivery_operations", h.in_delivery_ops)
+    rec.count("listeners_registered_as_bound_methods", getattr(h, "bound_method_listeners", 0))
     for f in h.flags_seen:
         rec.seen("event_form_x_queue_state", f)
     risk = None
